@@ -438,6 +438,29 @@ impl Hist {
             let _ = self.tip(t);
             self.call(mons, r);
         }
+        // Targeted shapes around the nullifier-tracking floor (batches longer than the 100-block
+        // retention window): (a) such a batch scanned OUT OF ORDER, above unscanned history whose
+        // notes it spends; (b) such a batch extending the fully-scanned frontier.
+        let len = self.sim.tip_height() - self.sim.base_height();
+        if len >= 125 && self.rng.gen_bool(0.45) {
+            let l = self.rng.gen_range(101..=(len - 12).min(150));
+            let tip = self.sim.tip_height();
+            let ooo = self.rng.gen_bool(0.6);
+            let from = if ooo { tip + 1 - l } else { self.sim.base_height() + 1 };
+            if ooo && self.rng.gen_bool(0.7) {
+                // a short scanned prefix first, so that a fully-scanned height exists
+                let k = self.rng.gen_range(1..8);
+                let b = self.sim.base_height() + 1;
+                if self.scan(b, k) {
+                    self.call(mons, r);
+                }
+            }
+            let ok = self.scan(from, l);
+            if !ok {
+                self.classify_scan_failure();
+            }
+            self.call(mons, r);
+        }
         for _ in 0..self.cfg.steps {
             if self.aborted.is_some() || !r.time_left() {
                 break;
